@@ -18,6 +18,100 @@ GATES = [(U + "transitive_closure", "A"), (U + "mec", "A"), (U + "imec", "A"), (
          (U + "to_factorization", "G"), (U + "order_edges", "G"), (U + "label_edges", "ordered")]
 
 
+def kahn_rules(rep, prog, f, S):
+    """shape of Kahn's algorithm: sources = zero in-degree; pop -> emit once; remove the out-edges of the emitted
+    node; a child becomes ready when it has no parent left *in the updated matrix*; leftover edges => ValueError.
+    (These are necessary conditions; the inductive argument that they suffice is not mechanised.)"""
+    q = f.qname
+    loops = sorted([(k, v) for k, v in S.loopinfo.items() if v["func"] == q], key=lambda kv: kv[0][1])
+    whiles = [kv for kv in loops if kv[1]["test"] is not None]
+    fors = [kv for kv in loops if kv[1]["test"] is None]
+    if len(whiles) != 1 or len(fors) != 1:
+        rep.unk("KAHN.shape", fwhere(f), "topological_ordering is no longer a work-list loop with one inner loop over children; the Kahn rules do not read this idiom")
+        return
+    (lw, w), (lf, fo) = whiles[0], fors[0]
+    state = w["init"]
+    mats = [k for k, v in state.items() if v[0] == "method" and v[2] == "copy" or derives_patternwise(v, "A") and v != ("list", ())]
+    lists = [k for k, v in state.items() if v == ("list", ())]
+    work = [k for k in state if k not in mats and k not in lists]
+    if len(mats) == 0 and len(lists) == 1 and len(work) == 1:
+        rep.bad("KAHN.remove-edge", fwhere(f, w["node"]), "the working matrix is never updated inside the loop: visited edges are not removed, so no child ever becomes ready")
+        return
+    if len(mats) != 1 or len(lists) != 1 or len(work) != 1:
+        rep.unk("KAHN.shape", fwhere(f), "loop state is not (working matrix, work list, output list): %s" % sorted(state))
+        return
+    A_, out_, wl_ = mats[0], lists[0], work[0]
+    muA, muW, muO = ("mu", lw, A_), ("mu", lw, wl_), ("mu", lw, out_)
+    # K1 sources
+    src = state[wl_]
+    while src[0] == "ext" and src[1] in ("list", "sorted") and len(src[2]) == 1:
+        src = src[2][0]
+    ok, why = False, "initial work list is %s" % fmt(state[wl_])[:100]
+    if src[0] == "sub" and is_const(src[2], 0) and src[1][0] == "ext" and src[1][1] == "numpy.where" and len(src[1][2]) == 1:
+        cond = src[1][2][0]
+        pn = npred(cond, True)
+        if pn[0] == "==0":
+            d = dict(pn[1])
+            if len(d) == 1 and list(d.values())[0] in (1, -1):
+                cnt = list(d)[0][0]
+                try:
+                    good = True
+                    from .. import signs
+                    for pair in PW.ALL9:
+                        v = PW.Eval({("param", "A"): PW.M(PW.mat(pair))}, {}).ev(cnt)
+                        if not isinstance(v, PW.CNT) or v.kind != "axis0":
+                            good = False
+                            why = "sources are not those with zero column sum (incoming edges): %s" % (v.kind if isinstance(v, PW.CNT) else type(v).__name__)
+                            break
+                        ij, ji = v.m.d["*"]
+                        if PW.nzb(ij) is not (pair[0] != signs.Z) or (isinstance(ij, PW.E) and ij.sign not in (signs.Z, signs.ONE)):
+                            good = False
+                            why = "the counted indicator is not the 0/1 edge pattern"
+                    ok = good
+                except Inconclusive as e:
+                    why = e.why
+    rep.check("KAHN.sources", ok, fwhere(f, w["node"]), "the work list starts with the nodes of zero in-degree (column sums of the 0/1 pattern)", "Kahn start set deviates: " + why)
+    # K2 emit once
+    popped = None
+    nxO = w["next"][out_]
+    if nxO[0] == "mut" and nxO[1] == muO and nxO[2] == "append" and len(nxO[3]) == 1:
+        popped = nxO[3][0]
+    ok = popped is not None and popped[0] == "method" and popped[1] == muW and popped[2] == "pop"
+    rep.check("KAHN.emit", ok, fwhere(f, w["node"]), "each round pops one node from the work list and appends exactly that node to the ordering",
+              "the emitted node is not the popped node: ordering' = %s" % fmt(nxO)[:100])
+    pt = npred(w["test"], True)
+    rep.check("KAHN.loop", pt == ("nonempty", muW), fwhere(f, w["node"]), "runs while the work list is non-empty", "loop condition is %s" % pred_fmt(pt))
+    if not ok:
+        return
+    # K3 relax
+    j = ("elem", fo["iter"])
+    okc = fo["iter"] == ("call", U + "ch", (popped, muA), (("A", muA), ("i", popped)))
+    rep.check("KAHN.children", okc, fwhere(f, fo["node"]), "visits the children of the emitted node in the current matrix", "inner loop runs over %s" % fmt(fo["iter"])[:100])
+    sts = [s_ for s_ in S.select("store", qname=q) if lf in s_.loops]
+    oks = len(sts) == 1 and sts[0].idx == ("tuple", (popped, j)) and is_const(sts[0].value, 0) and sts[0].aug is None
+    rep.check("KAHN.remove-edge", oks, fwhere(f, sts[0].node if sts else None), "the edge (emitted node -> child) is removed from the working matrix", "the visited edge is not removed as A[i, j] = 0")
+    if oks:
+        updated = ("store", sts[0].base, sts[0].idx, sts[0].value, None)
+        apps = [c for c in S.select("call", qname=q) if c.callkind == "method" and c.target == ".append" and lf in c.loops]
+        ready = ("empty", ("call", U + "pa", (j, updated), (("A", updated), ("i", j))))
+        okr = len(apps) == 1 and apps[0].args == [j] and apps[0].recv[0] == "mu" and apps[0].recv[2] == wl_ and apps[0].path and \
+            apps[0].path[-1][1] is True and npred(apps[0].path[-1][0], True) == ready
+        rep.check("KAHN.ready", okr, fwhere(f, apps[0].node if apps else None), "a child joins the work list exactly when it has no parent left in the *updated* matrix",
+                  "readiness test is not `len(pa(j, updated A)) == 0` followed by sinks.append(j)")
+    # K4 leftover
+    rs = [r for r in S.select("raise", qname=q) if r.exctype == "ValueError" and not r.loops and any(mentions(c, ("after", lw, A_)) for c, _ in r.path)]
+    okl = False
+    if len(rs) == 1:
+        c, pol = rs[0].path[-1]
+        pn = npred(c, pol)
+        okl = pn in ((">0", (((("method", ("after", lw, A_), "sum", (), ()),), 1),)), ("!=0", (((("method", ("after", lw, A_), "sum", (), ()),), 1),)),
+                     ("atom", ("method", ("after", lw, A_), "any", (), ()), True))
+        rets = S.select("return", qname=q)
+        okl = okl and len(rets) == 1 and rets[0].value == ("after", lw, out_) and (c, not pol) in rets[0].path
+    rep.check("KAHN.leftover", okl, fwhere(f, rs[0].node if rs else None), "edges left in the working matrix => ValueError; otherwise the ordering is returned",
+              "the leftover-edge (cycle) check is missing or does not guard the return")
+
+
 def run(prog, rep, tier):
     # 1. PATTERN
     entries = [(U + "is_dag", "A"), (U + "topological_ordering", "A"),
@@ -52,6 +146,7 @@ def run(prog, rep, tier):
     rep.check("TOPO.returns", bool(rets) and all(not is_const(r.value) for r in rets), fwhere(f),
               "returns the computed ordering", "returns a constant")
     PW.precheck_rule(prog, rep)
+    kahn_rules(rep, prog, f, S)
 
     # 4. gates of the three constructors
     S1 = dag_gate(rep, prog, "sempler.lganm.LGANM.__init__", "W")
